@@ -88,6 +88,12 @@ Theorem C08_budget_crlf_differs :
 Proof. exact budget_crlf_differs. Qed.
 Print Assumptions C08_budget_crlf_differs.
 
+(* the side condition of the factorisation theorems is the complement of the run-time class known_above_floor *)
+Theorem C08_known_above_floor_iff : forall x,
+  known_above_floor ref_budget_floor x = false <-> (N.of_nat (List.length x) <= ref_budget_floor)%N.
+Proof. exact known_above_floor_iff. Qed.
+Print Assumptions C08_known_above_floor_iff.
+
 (* factorisation: for ANY continuation `rest` of the pipeline that reads the lines and the budget *)
 Theorem C08_factor_crlf : forall (A : Type) (rest : list bytes -> N -> A) x,
   no_cr x = true -> (N.of_nat (List.length (to_crlf x)) <= ref_budget_floor)%N ->
